@@ -913,3 +913,56 @@ func verifH_C02_loader_reuse() {
 	verifAssert(u != nil && u.Value != nil && u.Value.MinLength == 3 && p != nil && p.Value != nil && p.Value.Schema != nil && p.Value.Schema.Value != nil && p.Value.Schema.Value.MinLength == 3 && r != nil && r.Value != nil, "C02 loader reuse: every reference of the second document is resolved, whatever the first load left behind")
 	verifReach("end")
 }
+
+//verif:harness id=C02 tier=quick,thorough witness=end bounds="a schema reference inside the content of an object defined by content: a parameter, a response header, a component header, an encoding header x internal / external-fragment reference: after a successful load the reference is resolved to the target schema"
+func verifH_C02_content_positions() {
+	pos := verifChoose("position", 4)
+	ref := `{"$ref":"#/components/schemas/T"}`
+	if verifChoose("external", 2) == 1 {
+		ref = `{"$ref":"x.json#/components/schemas/T"}`
+	}
+	byContent := `{"content":{"application/json":{"schema":` + ref + `}}}`
+	plain := `{"schema":{"type":"integer"}}`
+	hs := []string{plain, plain, plain}
+	param := `{"name":"q","in":"query","schema":{"type":"integer"}}`
+	switch pos {
+	case 0:
+		param = `{"name":"q","in":"query","content":{"application/json":{"schema":` + ref + `}}}`
+	default:
+		hs[pos-1] = byContent
+	}
+	rootText := `{"openapi":"3.0.0","info":{"title":"t","version":"1"},"paths":{"/a":{"post":{"operationId":"op","parameters":[` + param + `],` +
+		`"requestBody":{"content":{"multipart/form-data":{"schema":{"type":"object"},"encoding":{"f":{"headers":{"X-E":` + hs[2] + `}}}}}},` +
+		`"responses":{"200":{"description":"d","headers":{"X-R":` + hs[0] + `}}}}}},` +
+		`"components":{"schemas":{"T":` + verifTargets["schemas"] + `},"headers":{"CH":` + hs[1] + `}}}`
+	files := verifFiles()
+	rootLoc := &url.URL{Path: "/r/doc.json"}
+	loader := NewLoader()
+	loader.IsExternalRefsAllowed = true
+	loader.ReadFromURIFunc = func(l *Loader, u *url.URL) ([]byte, error) {
+		if t, ok := files[u.Path]; ok {
+			return []byte(t), nil
+		}
+		return nil, errors.New("no such file")
+	}
+	doc, err := loader.LoadFromDataWithPath([]byte(rootText), rootLoc)
+	verifAssert(err == nil && doc != nil, "C02 content positions: the document loads")
+	if err != nil || doc == nil {
+		return
+	}
+	o := doc.Paths.Value("/a").Post
+	var c Content
+	switch pos {
+	case 0:
+		c = o.Parameters[0].Value.Content
+	case 1:
+		c = o.Responses.Value("200").Value.Headers["X-R"].Value.Content
+	case 2:
+		c = doc.Components.Headers["CH"].Value.Content
+	case 3:
+		c = o.RequestBody.Value.Content["multipart/form-data"].Encoding["f"].Headers["X-E"].Value.Content
+	}
+	mt := c["application/json"]
+	verifAssert(mt != nil && mt.Schema != nil && mt.Schema.Value != nil && mt.Schema.Value.Type.Is("string") && mt.Schema.Value.MinLength == 3, "C02 content positions: a schema reference inside content is resolved to the schema it designates")
+	verifReach("end")
+}
